@@ -2,6 +2,7 @@ import PbBss.Props.C17Ideal
 import PbBss.Proofs.PipelineLeaky
 import PbBss.Proofs.PipelineLeakyEm
 import PbBss.Proofs.PipelineChain
+import PbBss.Proofs.PipelineChainWatson
 /-! # C17 — the documented pipeline separates a separable scene
 
 `PbBss/Props/C17Ideal.lean` (same namespace `PbBss.C17`) holds the index contract of the chain and the IDEAL-mask scene.
@@ -159,6 +160,36 @@ theorem balanced_pipeline_chain
           * (a j d * (starRingEnd ℂ) (a j e)) :=
   PipelineChain.balanced_pipeline_chain eigh tiny floor rule tie eps s sc heigh htiny h10 ht hf0 hf1 htie S hS hbal n hn hE
     atiny hat π g pfloor f k d e
+
+/-- **the same chain for the complex Watson mixture (cWMM)**, the second spatial model of the documented pipeline: balanced
+scene, start `twoLevel c g₀ h₀` (hard start: `g₀ = 1`, `h₀ = 0`), `get_pca` under its contract, the concentration map positive
+above `1/(K+1)`; posterior levels `G_n = e^{κ_n}/(e^{κ_n}+K)`, `H_n = 1/(e^{κ_n}+K)` with `κ_n = kappaSeq kinv K g₀ (n-1)`;
+smallness condition of the alignment domain as a hypothesis on the concentration, `log(10·N) ≤ κ_n` (the code's spline is
+clipped at `max_concentration = 500`, which noise-free data reach). -/
+theorem watson_balanced_pipeline_chain (sc : Scene a c z)
+    (pca : Tab (D+1) (Tab (D+1) ℂ) → Tab (D+1) ℂ × ℝ)
+    (hpca : PcaOn pca z) (kinv lnorm : ℝ → ℝ) (hK : 1 ≤ K)
+    (hkinv : ∀ x : ℝ, 1 / ((K+1 : ℕ) : ℝ) < x → x ≤ 1 → 0 < kinv x)
+    (tiny : ℝ) (htiny : 0 < tiny) (ht : tiny ≤ 1 / ((K+1 : ℕ) : ℝ)) (rule : WeightRule) (tie : Tying N)
+    (htie : tie.uniform = true) (eps : ℝ) (s : Fin N → ℝ) (S : ℝ) (hS : 0 < S) (hbal : ∀ k, classMass c s k = S)
+    (g₀ h₀ : ℝ) (hgh : g₀ + K * h₀ = 1) (hh0 : 0 ≤ h₀) (hlt : h₀ < g₀) (n : Nat) (hn : 1 ≤ n)
+    (hκ : Real.log (10 * (N : ℝ)) ≤ kappaSeq kinv K g₀ (n-1)) (atiny : ℝ)
+    (hat : atiny ≤ PipelineChainWatson.watsonG kinv K g₀ n)
+    (π : Fin F → Equiv.Perm (Fin (K+1))) (g : Equiv.Perm (Fin (K+1))) (pfloor : ℝ)
+    (f : Fin F) (k : Fin (K+1)) (d e : Fin (D+1)) :
+    let base := PipelineChainWatson.watsonMask F pca kinv lnorm tiny rule tie eps s c z g₀ h₀ n
+    let post : Fin F → Fin (K+1) → Fin N → ℝ := toFKT (Align.at3 (Align.permuted base π))
+    let m : Fin (K+1) → Fin F → Fin (K+1) := Align.greedyAligner atiny .cos (Align.permuted base π)
+    let obs : Fin F → Fin (D+1) → Fin N → ℂ := fun _ d t => z t d
+    let σ : Fin (K+1) → Fin (K+1) := fun k => Align.permAtBin π 0 (g k)
+    pipelinePsd pfloor obs post m g f k d e =
+        ∑ j, ((muW pfloor (PipelineChainWatson.watsonG kinv K g₀ n) (PipelineChainWatson.watsonH kinv K g₀ n) c (σ k) j
+              * frames c j : ℝ) : ℂ) * (a j d * (starRingEnd ℂ) (a j e)) ∧
+      noiseFromPsd (pipelinePsd pfloor obs post m g) f k d e =
+        ∑ j, ((nuW pfloor (PipelineChainWatson.watsonG kinv K g₀ n) (PipelineChainWatson.watsonH kinv K g₀ n) c (σ k) j
+              * frames c j : ℝ) : ℂ) * (a j d * (starRingEnd ℂ) (a j e)) :=
+  PipelineChainWatson.watson_balanced_pipeline_chain sc pca hpca kinv lnorm hK hkinv tiny htiny ht rule tie htie eps s S hS
+    hbal g₀ h₀ hgh hh0 hlt n hn hκ atiny hat π g pfloor f k d e
 
 end chain
 
